@@ -128,11 +128,19 @@ package op
 //@ define wfCOF(c) wfCircle(c.Majors, false) && wfCircle(c.Minors, true)
 //@ define memberIs(m, minor, i) forall(k, Key, dom(m.scales, k) == (supported(k) && k.Minor == minor && cidx(k) == i)) && forall(k, Key, dom(m.scales, k) ==> m.scales[k] != nil && m.scales[k].Key == k) && exists(k, Key, dom(m.scales, k))
 
-// Keys uses the iterator helpers maps.Keys / slices.Collect (outside the modelled subset): assumed.
+// Keys: the member's spellings as a set. The body goes through maps.Keys, slices.Collect (slices.AppendSeq) and
+// util.NewSet; the standard library's adapters are executed as compiled, their loops given invariants here.
 //@ func CircleMember.Keys returns (r)
-//@   trusted
-//@   allocs map[Key]bool
+//@   allocs map[Key]bool, []Key
 //@   ensures r != nil && forall(k, Key, r[k] == dom(c.scales, k)) && forall(k, Key, dom(r, k) == dom(c.scales, k))
+//@   loop maps.Keys$1/0 modifies s, jump$1
+//@   loop maps.Keys$1/0 allocs []Key
+//@   loop maps.Keys$1/0 invariant captured("jump$1") == 0
+//@   loop maps.Keys$1/0 invariant forall(k, Key, rangeseen(k) == exists(j, 0, len(s), s[j] == k))
+//@   loop util.NewSet/0 modifies s
+//@   loop util.NewSet/0 invariant 0 - 1 <= rangeindex && rangeindex < len(values) && s != nil
+//@   loop util.NewSet/0 invariant forall(k, Key, dom(s, k) == exists(j, 0, rangeindex + 1, values[j] == k))
+//@   loop util.NewSet/0 invariant forall(k, Key, dom(s, k) ==> s[k])
 
 //@ func Circle.Index returns (i, ok)
 //@   requires len(c.r) == 12
